@@ -1,9 +1,17 @@
 """Table of engines (which /verif directory is overlaid into which /repo package) and of
-per-property run parameters.  Read by ./check."""
+per-property run parameters. One file per property under propsd/ (PROP = dict(...)). Read by ./check."""
+import glob, os, runpy
 
 ENGINES = {
     "stack": dict(dir="stack", pkg="cmd/aws-lambda-rie"),
     "core": dict(dir="unit/core", pkg="lambda/core"),
+    "sup": dict(dir="sup", pkg="lambda/supervisor"),
+    "directinvoke": dict(dir="unit/directinvoke", pkg="lambda/core/directinvoke"),
+    "bandwidthlimiter": dict(dir="unit/bandwidthlimiter", pkg="lambda/core/bandwidthlimiter"),
+    "env": dict(dir="unit/env", pkg="lambda/rapidcore/env"),
+    "fatalerror": dict(dir="unit/fatalerror", pkg="lambda/fatalerror"),
+    "model": dict(dir="unit/model", pkg="lambda/rapi/model"),
+    "appctx": dict(dir="unit/appctx", pkg="lambda/appctx"),
 }
 
 ENGINE_TEXT = {
@@ -11,114 +19,17 @@ ENGINE_TEXT = {
              "Runtime API server with a fake process supervisor (goroutine actors interpreting generated scripts), a recording EventsAPI and "
              "the vhook pause points; the parent (rapid) generates scenarios and judges the sequence-numbered trace",
     "core": "in-process rapid properties overlaid into lambda/core (external test package)",
+    "sup": "rapid over real /bin/sh children of the real LocalSupervisor (overlaid into lambda/supervisor)",
+    "directinvoke": "in-process rapid properties and native fuzz targets overlaid into lambda/core/directinvoke",
+    "bandwidthlimiter": "in-process rapid properties overlaid into lambda/core/bandwidthlimiter",
+    "env": "in-process rapid properties overlaid into lambda/rapidcore/env",
+    "fatalerror": "in-process rapid properties and native fuzz targets overlaid into lambda/fatalerror",
+    "model": "in-process rapid properties and native fuzz targets overlaid into lambda/rapi/model",
+    "appctx": "in-process rapid properties overlaid into lambda/appctx",
 }
 
 NOT_APPLICABLE = {}
 
-PROPS = {
-    "C01": dict(
-        engine="stack", test="TestC01", level="exploration",
-        quick=dict(checks=240, shards=12, timeout=900),
-        thorough=dict(checks=4000, shards=14, timeout=3000),
-        rule="rapid draws 1-6 invocations on one emulator instance (fresh host subprocess per case): payload length from "
-             "{0,1,2,255,4095..4097,64Ki,1Mi,limit-1..limit+1,limit+4Ki} or random, content zero/ascii/json/random/non-UTF-8; client "
-             "context absent/JSON/UTF-8 text; trace header; runtime outcome per invocation ok/error/re-poll/crash/stall/oversize response; "
-             "0-1 extension. Oracle over the recorded history: bytes, id freshness, ARN, client context, deadline bracket at the runtime; "
-             "exact expected body/status at the caller. Non-trivial: >=2 different payload lengths on one host, or an empty / non-UTF-8 / "
-             ">=1MiB payload, or an invocation following a failed, timed-out or oversized one. Distinct = distinct case hash.",
-        assumptions=["fake process supervisor (DESIGN 3.4)", "client contexts restricted to strings an HTTP header can carry"],
-        level_text="random search over invocation sequences against the real composed stack (front end -> interop server -> orchestrator -> "
-                   "Runtime API -> scripted runtime and back) with an exact byte/identity oracle on the recorded history. Exploration: no "
-                   "counterexample among the generated histories; sizes up to the limit + 4 KiB.",
-        level_note="processes are goroutines behind a fake supervisor; Cognito identity and content-type headers are not reachable through the emulator front end",
-        technique="property-based testing (rapid): generated invocation histories, history invariant with byte equality",
-    ),
-    "C05": dict(
-        engine="stack", test="TestC05", level="exploration",
-        quick=dict(checks=110, shards=14, timeout=1200),
-        thorough=dict(checks=900, shards=14, timeout=3400),
-        rule="families: stall (a party stops for ever in phase: extension before register / before next / after the event, runtime before "
-             "first next / before response / after response before next), race (the runtime posts its response delta in [-40,+40] ms around "
-             "expiry), hook (expiry paused at vhook invoke.timeoutFired or reset.flowsCancelled while the runtime responds and returns to "
-             "next); 0-2 extensions, SHUTDOWN subscriptions, processes ignoring TERM / the SHUTDOWN event, first or second generation, "
-             "timeout 150/300 ms. The thorough tier enumerates phase x extensions x TERM pattern x generation and a delta sweep. Oracle: "
-             "timeout text (or, race/hook only, the runtime's response) exactly; not before T, not after T+2000+100 (+1500 slack); all "
-             "processes dead before the answer; two following invocations succeed on processes started afterwards. Non-trivial: stall phase "
-             "other than 'runtime before response', or a process ignoring TERM/SHUTDOWN, or hook-ordered, or |delta| <= 5 ms.",
-        assumptions=["fake process supervisor (DESIGN 3.4)", "upper time bound carries 1.5 s slack; lower bound exact"],
-        level_text="random search plus (thorough) enumeration of the stall-phase product against the real stack, with two of the expiry races "
-                   "ordered deterministically through pause points instead of sampled.",
-        level_note="unkillable processes are not modelled; only two of the interleavings around expiry are hook-ordered, the rest is sampled by the delta sweep",
-        technique="property-based testing (rapid) + fault enumeration + hook-ordered schedules; history invariant with one-sided time bounds",
-    ),
-    "C06": dict(
-        engine="stack", test="TestC06", level="exploration",
-        quick=dict(checks=200, shards=12, timeout=900),
-        thorough=dict(checks=2500, shards=14, timeout=3000),
-        rule="fixed part: the product crash point (runtime: during init, after init/error, after next, after response, idle, launch "
-             "failure; extension: before register, after register, after init/error, after event, after exit/error, idle, launch failure) "
-             "x generation (first / after a failed one) [x exit kind {0, n, signal} x bystander extension {none, INVOKE, INVOKE+SHUTDOWN} in "
-             "the thorough tier]; random part: 1-2 consecutive faulty generations with random point, exit status, warm-up invocations, "
-             "pending/next timing, subscriptions. Oracle: outcome table derived from the statement (502; delivered response / init-error "
-             "payload / JSON naming the first fault with the request id / empty), all processes gone before the answer, two following "
-             "invocations served by new processes. Non-trivial: anything but 'runtime exits with a non-zero code after next, no extensions'.",
-        assumptions=["fake process supervisor (DESIGN 3.4)", "a fault during a re-initialisation inside an invocation may answer either empty or the JSON naming the fault (DESIGN C06)"],
-        level_text="enumeration of the finite crash-point product (complete in the thorough tier for the listed factor levels) plus random "
-                   "search over two-generation fault sequences, against the real stack.",
-        level_note="exit statuses sampled from {0,1,2,3,137,255, signals 9/11/15}; process death is simulated by the fake supervisor; "
-                   "exit events are never delivered earlier than 20 ms after Exec returned",
-        technique="property-based testing (rapid) + fault enumeration: generated crash points, outcome table from the statement as oracle",
-    ),
-    "C07": dict(
-        engine="stack", test="TestC07", level="exploration",
-        quick=dict(checks=220, shards=14, timeout=1500),
-        thorough=dict(checks=3000, shards=14, timeout=3400),
-        rule="rapid draws, for 1-3 consecutive faulty generations, free-running scripts of the runtime (<=10 steps) and of 0-2 extensions "
-             "(<=8 steps) over the whole Runtime/Extensions API alphabet including misuse: wrong-role calls, stale/garbage ids, duplicate "
-             "parallel next, refused registrations, unknown routes and wrong methods, oversize bodies, init/exit error reports, sleeps, exits, "
-             "crashes, stalls, TERM-ignoring processes; one invocation per faulty generation, then a healthy generation serving 3 "
-             "invocations. Oracle: host process alive; every invocation answered within T+2000+100 (+1500 slack); every body is a payload "
-             "some process posted for that invocation's id, an init-error payload, a platform error JSON, the timeout text or empty-with-"
-             "failure-status; once every faulty process is dead at most the first healthy invocation fails. Non-trivial: >=1 misuse step "
-             "and >=1 fault (exit/crash/stall).",
-        health={"has-misuse": 0.5},
-        assumptions=["fake process supervisor (DESIGN 3.4)", "error bodies with the error-cause content type are left to C20"],
-        level_text="random search over misbehaving client programs against the real composed stack; a host death, a hang, a late or foreign "
-                   "answer, or a healthy tail that does not recover are violations.",
-        level_note="the exec->exit-channel window and the internal-state TOCTOU are excluded by construction (DESIGN 7)",
-        technique="property-based testing (rapid): generated client programs (scripts), crash/hang/foreign-body oracle over the trace",
-    ),
-    "C10": dict(
-        engine="stack", test="TestC10", level="exploration",
-        quick=dict(checks=120, shards=12, timeout=900),
-        thorough=dict(checks=1500, shards=14, timeout=3000),
-        rule="rapid draws the phase in which the first invocation lingers (initialisation, runtime working, response sent while an "
-             "INVOKE-subscribed extension finishes, timeout reset in progress), its length 50-400 ms and the arrival offsets of 1-2 extra "
-             "callers inside that phase (latches place them). Oracle: every extra caller issued before the first caller returned gets a 4xx "
-             "within 1 s; the first caller's outcome and two later invocations are exactly what they are without extra callers; the host "
-             "process survives. Non-trivial: extra caller arrived in flight and (phase other than 'runtime working' or two extra callers).",
-        assumptions=["fake process supervisor (DESIGN 3.4)", "the front end's unsynchronised initDone window is excluded by construction (explicit init)"],
-        level_text="random search over arrival times of extra callers relative to each phase of an in-flight invocation, against the real "
-                   "front end + interop server; exploration of sampled offsets, not of every interleaving inside Reserve/Release.",
-        level_note="extra callers are placed by latches and sleeps; orders inside the interop server's mutex-protected sections are not schedulable",
-        technique="property-based testing (rapid): generated caller schedules, metamorphic expectation for the first caller",
-    ),
-    "C11": dict(
-        engine="core", test="TestC11", level="exploration",
-        quick=dict(checks=4000, shards=8, timeout=600),
-        thorough=dict(checks=60000, shards=14, timeout=2400, race=True, race_frac=0.1),
-        rule="rapid draws an operation sequence (<=40 ops) on one gate, an init flow or an invoke flow: WalkThrough, SetCount, "
-             "Register, Reset, Cancel(nil|e1|e2), Clear, spawn waiter (<=3 parked), fire the deadline of a deadline-waiter; plus "
-             "concurrent batches (object=stress). Oracle: abstract counting latch; after every operation return values, the set of "
-             "returned waiters and their results must equal the model's. Non-trivial: >=2 waiters parked at a release or cancel, or "
-             "a count change while a waiter is parked, or cancel -> re-arm -> clear. Distinct = distinct case hash.",
-        assumptions=["a waiter the model releases returns within 5 s (observed: microseconds)", "Go scheduler, sync.Cond"],
-        level_text="model-based random search: generated operation sequences on a gate and on the init/invoke flow objects are compared step by "
-                   "step with an abstract counting latch (return values, which waiters returned, with what); concurrent batches, and a -race "
-                   "build in the thorough tier. Exploration only.",
-        level_note="operations are issued sequentially with quiescence in between (5 s lost-wake-up window); interleavings inside one primitive "
-                   "operation are only exercised by the concurrent batches; Clear is followed by an explicit SetCount because the expected "
-                   "count after Clear is not part of the property",
-        technique="property-based testing (rapid), stateful model-based: abstract latch as reference model",
-    ),
-}
+PROPS = {}
+for _f in sorted(glob.glob(os.path.join(os.path.dirname(os.path.abspath(__file__)), "propsd", "C*.py"))):
+    PROPS[os.path.basename(_f)[:-3]] = runpy.run_path(_f)["PROP"]
